@@ -7,6 +7,8 @@ may hang.  Runs that are killed by their runner (cancelled spinning programs, pr
 children) are mixed in, because their teardown is what could reach other runs."""
 import json
 import os
+import re
+import subprocess
 
 FINISH = dict(level="proof", rule=(
     "6 (thorough 60) sets of 16 workloads drawn from {ptrace, namespace, container on one of 3 environments} x {descriptor-table "
@@ -130,6 +132,50 @@ def run(c):
     if tog_bad:
         c.finding_or_violation({"kind": "independence", "what": "a run of a freshly written program (exec descriptor) fails because another run was being launched while the file was written",
                                 "error": tog_bad[0][:60]}, {"outcomes_alone": eo[0]["outcomes"], "outcomes_next_to_the_other_run": eo[1]["outcomes"]}, klass="etxtbsy")
+    # ---- the launcher's own descriptor discipline, system call by system call: a start (successful or failing at any stage) closes exactly the descriptors
+    # it created, each once; a close of a number it does not hold is a close of whatever another run of the process got under that number meanwhile
+    fexe = c.build_harness("h_fdtrace")
+    fdir = c.tmpdir("fdtrace")
+    trp = os.path.join(fdir, "trace.txt")
+    pr = subprocess.run(["strace", "-o", trp, "-e", "trace=close,write,socketpair,pipe2,openat,dup,dup3,eventfd2,memfd_create", "-s", "64", fexe],
+                        env=dict(env, VERIF_SCRATCH=fdir), stdout=subprocess.PIPE, stderr=subprocess.PIPE, timeout=300)
+    if pr.returncode != 0 or not os.path.exists(trp):
+        raise RuntimeError("h_fdtrace under strace: rc %d %s" % (pr.returncode, pr.stderr.decode(errors="replace")[-300:]))
+    cur, held, ncases = None, set(), 0
+    for ln in open(trp, errors="replace"):
+        m = re.match(r'write\(-1, "case:(end:)?(\w+)"', ln)
+        if m:
+            if m.group(1):
+                # (a traced start with a filter returns before exec; its parent end is read and closed by a helper goroutine, on another thread)
+                if held and not cur.startswith("ptrace_chdir"):
+                    c.finding_or_violation({"kind": "launcher-descriptors", "what": "a start leaves descriptors it created open in the launching process", "start": cur},
+                                           {"start": cur, "left_open": sorted(held), "trace": trp}, klass="fd-leak")
+                cur = None
+            else:
+                cur, held = m.group(2), set()
+                ncases += 1
+                c.count(("fdtrace", cur), nontrivial=True, klass="fdtrace")
+            continue
+        if cur is None:
+            continue
+        m = re.match(r'socketpair\(.*\[(\d+), (\d+)\]\) = 0', ln) or re.match(r'pipe2\(\[(\d+), (\d+)\].*\) = 0', ln)
+        if m:
+            held |= {int(m.group(1)), int(m.group(2))}
+            continue
+        m = re.match(r'(?:openat|dup|eventfd2|memfd_create)\(.*\) = (\d+)', ln)
+        if m:
+            held.add(int(m.group(1)))
+            continue
+        m = re.match(r'close\((\d+)\)\s+= (-?\d+)( E\w+)?', ln)
+        if m:
+            fd, rv = int(m.group(1)), int(m.group(2))
+            if rv != 0 or fd not in held:
+                c.finding_or_violation({"kind": "launcher-descriptors", "what": "a start closes a descriptor number it does not hold (a number closed twice, or never its own)", "start": cur},
+                                       {"start": cur, "close_of": fd, "result": ln.strip(), "held_by_this_start": sorted(held), "trace_of_the_launching_thread": trp}, klass="fd-double-close")
+            held.discard(fd)
+    if ncases < 15:
+        raise RuntimeError("fdtrace: only %d starts found in the trace" % ncases)
+    c.cov["starts_traced_close_by_close"] = ncases
     c.sample({"workloads": cases[0]["workloads"][:6], "alone": [dict(a) for a in (obs[0].get("alone") or [])[:6] if a],
               "among_others": [dict(a) for a in (obs[0].get("together") or [])[:6] if a]})
     c.cov["sets"] = nset
